@@ -285,3 +285,31 @@ func j2(pool ammtypes.Pool, la, T sdkmath.Int) {
 	vrf.Lemma(Y.Mul(la).LTE(X.Add(la)), "J2 lemma 4: y = (L+a')/L rounded: Y*L <= X + L")
 	vrf.Assert(rho.Mul(rho).Mul(la).LTE(X.Mul(E)), "J2 A5: (r - 1000 ulp)^2 <= (L+a')/L, so A1 squared gives (T+s)^2*L <= T^2*(L+a') up to the slack")
 }
+
+// J1 with an arbitrary list of two offered coins: each coin's denom is either pool asset (so the list may name the
+// same asset twice, which per-coin message validation lets through). Whatever the list, minted shares are at most
+// pro-rata to what is actually used of EVERY pool asset.
+//vrf:cover join-ok refused
+//vrf:bound 2 assets; a list of 2 offered coins whose denoms are chosen freely among the pool's assets (duplicates included); amounts, reserves, supply unbounded positive
+func H_J1_AnyCoinList() {
+	pool, la, lu, T := symPool(false)
+	pick := func(tag string) string {
+		if vrf.Bool("coin" + tag + "IsUsdc") {
+			return "uusdc"
+		}
+		return "uatom"
+	}
+	d1, d2 := pick("1"), pick("2")
+	i1, i2 := vrf.Int("in1"), vrf.Int("in2")
+	vrf.Assume(i1.IsPositive())
+	vrf.Assume(i2.IsPositive())
+	shares, joined, err := pool.CalcJoinPoolNoSwapShares(sdk.Coins{{Denom: d1, Amount: i1}, {Denom: d2, Amount: i2}})
+	if err != nil {
+		vrf.Cover("refused")
+		return
+	}
+	vrf.Cover("join-ok")
+	ja, ju := joined.AmountOf("uatom"), joined.AmountOf("uusdc")
+	vrf.Assert(shares.Mul(la).LTE(ja.Mul(T)), "J1 any list: shares*L_atom <= used_atom*T (every asset is contributed pro rata)")
+	vrf.Assert(shares.Mul(lu).LTE(ju.Mul(T)), "J1 any list: shares*L_usdc <= used_usdc*T (every asset is contributed pro rata)")
+}
